@@ -8,16 +8,21 @@ for l in open('/tmp/confirm_results.txt'):
     m = re.match(r"(\S+) :: demo_without_patch_exit=(\d+) demo_with_patch_exit=(\d+) tests_with_patch: (.*)", l.strip())
     if m:
         res[m.group(1)] = (int(m.group(2)), int(m.group(3)), m.group(4))
-for pid in sys.argv[1:]:
+rnd = ""
+args = sys.argv[1:]
+if args and args[0].startswith("--round="):
+    rnd = args[0].split("=")[1]; args = args[1:]
+off = 3 * (int(rnd) - 1) if rnd else 0
+for pid in args:
     for k in (1, 2, 3):
-        src = "/tmp/mut_%s/out/%d" % (pid, k)
+        src = "/tmp/mut%s_%s/out/%d" % (rnd, pid, k)
         if src not in res:
             print("no confirmation for", src); continue
         a, b, t = res[src]
         ok = a == 0 and b != 0 and re.search(r"\b61 passed", t) and "failed" not in t
         if not ok:
             print("NOT confirmed:", src, res[src]); continue
-        dst = "/verif/seeded/%s-%d" % (pid, k)
+        dst = "/verif/seeded/%s-%d" % (pid, k + off)
         os.makedirs(dst, exist_ok=True)
         for f in ("patch.diff", "demo.py"):
             shutil.copy(os.path.join(src, f), dst)
